@@ -1,5 +1,66 @@
-(* TraceProofs.v -- observation-trace theorems behind C03 / C08 / C09 (work in progress header,
-   replaced at the end). *)
+(* TraceProofs.v -- observation-trace theorems behind
+     C03 ("steps run to completion in documented order and the trace tells the truth"),
+     C08 ("contracts are checked at the documented points; failures raise the right error"),
+     C09_ignore_silent.
+
+   Everything is proved for the model of Interp.v, for EVERY chart, evaluator and listener
+   (Section Trace has exactly the Variables of Section Interp; no Hypothesis).  No axiom, nothing
+   admitted: every `Print Assumptions` at the end prints "Closed under the global context".
+
+   VOCABULARY
+     slot      SExec k o code ev | SConds k o conds ev | SGuards
+               (SGuards is an addition: "a block of guard evaluations", any number of ObEval of
+               kind CGuard / idx 0; it lets execute_once be described by one slot list).
+     outcome   RDone | RFalse k o idx | RRaise k o idx | RAbort
+               RFalse = the play stopped at an ObEval .. (Some false)        <-> EContract k o idx
+               RRaise = the play stopped at an ObEval/ObExec .. None         <-> ECode k o idx
+               RAbort = the play stopped at a slot boundary without a failing call
+                        (EStatechart, EKey, EAssert, an error returned by emit; at macro level also
+                        ENonDeterminism, EConflict, EFuel).  In the model NO other error can stop a
+                        step inside a slot: "inside it" does not happen.
+     realises ig slots calls out     the inductive play relation (ig = i_ignore_contract: every
+               SConds then produces nothing).  realises_false_inv spells out what a play with
+               outcome RFalse is: slots played completely ++ the SConds slot whose condition
+               number idx was false ++ slots never started.
+     calls     a trace with ObMeta/ObSelected removed; traces are NEWEST FIRST in m_tr, `rev new`
+               is oldest first.
+     verdict AE out r new   result r and outcome agree, on failure the NEWEST observation of `new`
+               is the failing call (so no ObExec/ObEval/ObMeta follows it) and every earlier call
+               succeeded (ok_obs).
+     slots_of_micro / inv_slots  use the name stored in the state object (OState (s_name st)),
+               which is what the model (and sismic) passes to the evaluator.  slots_of_micro_doc /
+               inv_slots_doc use the names of the MicroStep / configuration, as in the task
+               statement; they coincide under names_coherent (state_for sc n = Some st ->
+               s_name st = n, part of WF1), see *_doc theorems.
+
+   MAIN THEOREMS (statement numbers of the task)
+     1  C08_apply_step_points (any ig, any result, with verdict), C08_apply_step_complete,
+        C08_first_failure_micro, C08_first_raise_micro (under emit_clean: listeners return no
+        EContract/ECode of their own -- without it an EContract result may come from a listener
+        (World.emit1 can do that), and the general theorem says so: outcome RAbort with emit_err),
+        C03_sent_truth, C08_apply_step_points_doc.
+     2  C03_config_truth_gen (unconditional, names taken from the state objects),
+        C03_config_truth (as stated in the task, needs names_coherent);
+        TraceExample.C03_config_truth_needs_coherence shows the hypothesis cannot be dropped.
+     3  C08_execute_once_run (any ig, any result), C08_execute_once_points, C08_execute_once_empty,
+        C08_execute_once_empty_config, C03_trace_truth (ObExec sub-sequence AND sent events),
+        C03_macro_config, C08_first_failure, C08_first_raise, C08_execute_once_points_doc.
+     4  C08_old_at_eval, C08_old_written_only_by_pre, C08_old_transition, C08_old_state_entry,
+        C08_old_exit, C08_old_invariants.
+     5  C09_ignore_silent_micro, C09_ignore_silent (under emit_no_contract), C09_flag_constant.
+
+   WEAKENED / DIFFERENT FROM THE TASK TEXT (nothing is left unproved, no `_partial`):
+     * owners of state slots are OState (s_name st), not OState n (equal under names_coherent).
+     * statement 2 as literally written (fold over ms_exited/ms_entered) is FALSE for a chart whose
+       state object is registered under another name; it is proved under names_coherent and the
+       counterexample is TraceExample.C03_config_truth_needs_coherence.
+     * "r = inr (EContract ..) -> the trace ends with the failing evaluation" needs emit_clean.
+     * on failure of execute_once the micro steps are existentially quantified (`done`): the
+       completed ones followed by the one in which the failure happened.
+     * C08_old for a state is stated for one enter_state (store), one exit_state and
+       check_invariants (reads), plus "nobody else writes the store"; the end-to-end statement
+       across several macro steps ("latest entry") is the composition of these and is not stated
+       as one theorem. *)
 From Coq Require Import List Bool ZArith String Lia.
 From Sismic Require Import Base Chart Interp.
 Import ListNotations.
@@ -3164,8 +3225,10 @@ Section Trace.
     intros H. remember (RFalse k o idx) as out eqn:Eo.
     induction H as [i|i cd cds c tr out Hc H IH|i cd cds c Hc|i cd cds c Hc]; try discriminate.
     - destruct (IH Eo) as (Ek & Eo' & n & cd' & Hn & Ei & Hl).
-      split; auto. split; auto. exists (S n), cd'. simpl. repeat split; auto. lia.
-    - inversion Eo; subst. split; auto. split; auto. exists 0, cd. simpl. repeat split; auto. lia.
+      split; auto. split; auto. exists (S n), cd'. simpl.
+      split; [exact Hn|]. split; [lia|]. rewrite Hl. reflexivity.
+    - inversion Eo; subst. split; auto. split; auto. exists 0, cd. simpl.
+      split; [reflexivity|]. split; [lia|reflexivity].
   Qed.
 
   (* the slot list splits into slots played completely, then the slot SConds k o cds ev in which
